@@ -163,15 +163,41 @@ class Op(Expr):
         return "Op(%s,%s)" % (self.op, ",".join(repr(arg) for arg in self.args))
 
     def __str__(self):
+        # Brackets are inserted so that the result is read back by the
+        # parser (imperative/parser2) as the same expression: arithmetic
+        # operators have no precedence there and nest to the right,
+        # ~ applies to an atomic condition, & | --> nest to the right with
+        # decreasing precedence, and if/forall extend as far as possible.
+        def is_bool_op(e, ops):
+            return isinstance(e, Op) and len(e.args) == 2 and e.op in ops
+
+        def bracket(e):
+            return '(' + str(e) + ')'
+
+        arith = ('+', '-', '*')
         if len(self.args) == 1:
-            return "%s%s" % (self.op, str(self.args[0]))
+            arg = self.args[0]
+            if self.op == '~' and (is_bool_op(arg, ('&', '|', '-->', '<-->')) or
+                                   (isinstance(arg, Op) and arg.op == '~')):
+                return "~" + bracket(arg)
+            return "%s%s" % (self.op, str(arg))
         elif len(self.args) == 2:
-            arg1 = str(self.args[0])
-            arg2 = str(self.args[1])
-            if self.op == '*' and isinstance(self.args[0], Op) and self.args[0].op in ('+', '-'):
-                arg1 = '(' + arg1 + ')'
-            if self.op == '*' and isinstance(self.args[1], Op) and self.args[1].op in ('+', '-'):
-                arg2 = '(' + arg2 + ')'
+            a1, a2 = self.args
+            arg1, arg2 = str(a1), str(a2)
+            if self.op in arith:
+                if isinstance(a1, Op):
+                    arg1 = bracket(a1)
+                if self.op == '*' and isinstance(a2, Op) and a2.op in ('+', '-') and len(a2.args) == 2:
+                    arg2 = bracket(a2)
+            elif self.op in ('&', '|', '-->', '<-->'):
+                left = {'&': ('&', '|', '-->', '<-->'), '|': ('|', '-->', '<-->'),
+                        '-->': ('-->', '<-->'), '<-->': ('&', '|', '-->', '<-->')}[self.op]
+                right = {'&': ('|', '-->', '<-->'), '|': ('-->', '<-->'),
+                         '-->': ('<-->',), '<-->': ('&', '|', '-->', '<-->')}[self.op]
+                if is_bool_op(a1, left) or isinstance(a1, (ITE, Forall)):
+                    arg1 = bracket(a1)
+                if is_bool_op(a2, right) or isinstance(a2, (ITE, Forall)):
+                    arg2 = bracket(a2)
             return "%s %s %s" % (arg1, self.op, arg2)
         else:
             raise NotImplementedError
